@@ -466,6 +466,28 @@ Definition uuid_possible (data : bytes) : bool :=
 Definition uuid_oracle_ok (sniff_other : bytes -> bytes -> bool) : Prop :=
   forall data, sniff_other (bs "IsUUID") data = true -> uuid_possible data = true.
 
+(* ================= what is assumed of the JWT sniffer ================= *)
+(* IsJWT = ParseJWT succeeds (jwt.go:22): exactly three '.'-separated segments, each accepted by
+   DecodeAnyBase64 (and the first two JSON objects).  The routes only need this NECESSARY condition;
+   Model/Jwt.v's is_jwt satisfies it for every JSON oracle (lemma is_jwt_possible), and the harness
+   checks it against the real sniffer on every sniff case. *)
+Fixpoint split_on_dot (s : bytes) : list bytes :=      (* bytes.Split(s, ".") *)
+  match s with
+  | [] => [[]]
+  | c :: r =>
+      match split_on_dot r with
+      | cur :: rest => if c =? 46 then [] :: cur :: rest else (c :: cur) :: rest
+      | [] => [[]]
+      end
+  end.
+Definition jwt_possible (data : bytes) : bool :=
+  match split_on_dot data with
+  | [h; p; g] => is_ok (decode_any h) && is_ok (decode_any p) && is_ok (decode_any g)
+  | _ => false
+  end.
+Definition jwt_oracle_ok (sniff_other : bytes -> bytes -> bool) : Prop :=
+  forall data, sniff_other (bs "IsJWT") data = true -> jwt_possible data = true.
+
 (* ================= well-formed objects of each kind ================= *)
 (* the children of the outer SEQUENCE; the element after the first one; the content of the first one *)
 Definition seq_inner (d : bytes) : option bytes :=
@@ -488,8 +510,9 @@ Definition side_cond (k : nat) (d : bytes) : bool :=
       end
   end.
 
-(* some byte is not a base64 character (true of every DER key: it contains a tag byte 02 or 06) *)
-Definition not_text (d : bytes) : bool := existsb (fun c => cls c =? cX) d.
+(* some byte is neither a base64 character nor '.' (true of every DER key: it contains a tag byte
+   02 or 06): such a value is neither base64 text nor a JWT *)
+Definition not_text (d : bytes) : bool := existsb (fun c => (cls c =? cX) && negb (c =? 46)) d.
 Definition starts_seq (d : bytes) : bool := match d with 48 :: _ => true | _ => false end.
 
 (* [d] is exactly one DER value and (kinds 1..6) is accepted by kind [k]'s struct; that it then
@@ -576,15 +599,17 @@ Fixpoint drop_while {A} (f : A -> bool) (l : list A) : list A :=
   | [] => []
   end.
 (* name patterns are exact names; no magic starts with '0' (raw DER SEQUENCE) or 'M' (its base64);
-   the first rows that have a sniffer are IsUUID, then IsBase64ASN1/Base64ASN1File, then IsASN1/ASN1File *)
+   the first rows that have a sniffer are IsUUID, IsJWT (since the repair of C18's F37), then
+   IsBase64ASN1/Base64ASN1File, then IsASN1/ASN1File *)
 Definition routes_table_ok (t : list row) : bool :=
   forallb (fun r => forallb pattern_exact (r_patterns r)) t
   && forallb (fun r => forallb (magic_avoids 48) (r_magics r) && forallb (magic_avoids 77) (r_magics r)) t
   && match drop_while no_sniffer t with
-     | r1 :: r2 :: r3 :: _ =>
+     | r1 :: r2 :: r3 :: r4 :: _ =>
          sniffer_row (bs "IsUUID") (r_parser r1) r1
-         && sniffer_row (bs "IsBase64ASN1") (bs "Base64ASN1File") r2
-         && sniffer_row (bs "IsASN1") (bs "ASN1File") r3
+         && sniffer_row (bs "IsJWT") (r_parser r2) r2
+         && sniffer_row (bs "IsBase64ASN1") (bs "Base64ASN1File") r3
+         && sniffer_row (bs "IsASN1") (bs "ASN1File") r4
      | _ => false
      end.
 (* the base name of [name] is one of the table's name patterns *)
